@@ -85,7 +85,7 @@ def run(chk):
         if r["expected"] == "NoError" and r["outcome"] != "NoError":
             raise checklib.Infra("Apalache refutes %s (a statement about the specification alone, independent of /repo): %s" % (r["inv"], r["cmd"]))
     chk.notes.append("Apalache: 5 statements over all byte strings of length 0..4 (and pairs, and all integers below 2^31 in magnitude) hold; the false one is refuted")
-    chk.build()
+    chk.build(mains=("btcdeb", "btcc"))
     # every opcode that reads a number reads it through this codec: each numeric opcode on every one-byte string, the two- to six-byte
     # boundary strings, with and without the minimal-encoding requirement (accepted / rejected, and the value it computed from it)
     import gen_scripts as G
@@ -155,7 +155,41 @@ def run(chk):
                     k += 1
                     st = [b_] if opn != "PICK" else [b"\x07", b_]
                     opjobs.append(SessionJob("n%d:hist:%s" % (k, opn), bytes([O["NOP"], O[opn]]), st, fl, ("BASE", "TAPSCRIPT")[k % 2], cmds=pre + ["steps"], cmp=D.CMP_C01, hist=True))
+    # the small-number opcodes produce encodings too (OP_1NEGATE is 81, not ff): alone, and handed on to opcodes that read numbers
+    for small in ["1NEGATE", "0"] + [str(i) for i in range(1, 17)]:
+        for tail in ([], ["1ADD"], ["NEGATE"], ["ABS"], ["DUP", "ADD"], ["SIZE"], ["0NOTEQUAL"]):
+            k += 1
+            opjobs.append(SessionJob("n%d:small:%s:%s" % (k, small, "-".join(tail)), bytes([O[small]] + [O[t] for t in tail]), [], ["MINIMALDATA"] if k % 2 else [],
+                                     ("BASE", "WITNESS_V0", "TAPSCRIPT")[k % 3], cmds=["steps"] if k % 4 else ["exec OP_" + small, "steps"], cmp=D.CMP_C01, hist=True))
     divs0 = chk.validate("Trace_Session", opjobs, "c18ops")
+    # the same codec behind the transforms of the prompt and of btcc: int() reads any string of up to four bytes (minimal or not), and what is
+    # made of the number afterwards (hex, a hash, a push) is its minimal encoding
+    import ptydrv, c14
+    from c09 import RecJob
+    deb, btcc = chk.build_obj.exe("btcdeb"), chk.build_obj.exe("btcc")
+    encs = [b"", b"\x00", b"\x80", b"\x01", b"\x81", b"\x7f", b"\xff", b"\x01\x00", b"\x00\x80", b"\x80\x00", b"\xff\x7f", b"\xff\xff", b"\x00\x00", b"\x01\x00\x00", b"\x00\x00\x80",
+            b"\xff\xff\x00", b"\x01\x00\x00\x00", b"\x00\x00\x00\x80", b"\xff\xff\xff\x7f", b"\xff\xff\xff\xff", b"\x11\x00", b"\x51", b"\x10", b"\x01\x02\x03\x04\x05"]
+    encs += [bytes(chk.rng.randrange(256) for _ in range(n_)) + tail_ for n_ in (1, 2, 3) for tail_ in (b"\x00", b"\x80") for _ in range(4)]
+    tfrec = []
+    R = ptydrv.Repl([deb, "0x51"], timeout=20)
+    for x in encs:
+        for cmd, nm, args in (("int", "int", [c14.D(x)]), ("hex", "hex", [{"k": "call", "name": "int", "args": [c14.D(x)]}]), ("sha256", "sha256", [{"k": "call", "name": "int", "args": [c14.D(x)]}])):
+            if len(x) == 0 or (len(x) == 1 and (1 <= x[0] <= 16 or x[0] == 0x81)): continue        # one-byte arguments that read as opcodes at the prompt
+            out, err = R.cmd("tf " + cmd + " " + " ".join(c14.argtext(a) for a in args))
+            if not R.alive() or "<<NO PROMPT>>" in out:
+                ev = {"e": "Crashed", "sig": -1, "cmd": cmd, "args": args}; tfrec.append((RecJob("Crashed", ev), [ev])); break
+            lines_ = [l for l in out.strip().split("\n") if l]
+            failed = any(w in c14.nowarn(err) or w in c14.nowarn(out) for w in c14.KW)
+            ev = {"e": "Tf", "form": "cmd", "name": nm, "args": args, "out": lines_[-1] if lines_ else "", "failed": failed, "stderr": err[-150:]}
+            tfrec.append((RecJob("Tf", ev), [ev]))
+    R.close()
+    for x in encs:
+        for nm, args in (("hex", [{"k": "call", "name": "int", "args": [c14.D(x)]}]), ("int", [c14.D(x)])):
+            r = ptydrv.run_cli([btcc, "%s(%s)" % (nm, c14.argtext(args[0]))], stdin_tty=True)
+            out = r["stdout"].strip().split("\n")[-1] if r["stdout"].strip() else ""
+            ev = {"e": "Tf", "form": "inline", "name": nm, "args": args, "out": out, "failed": any(w in c14.nowarn(r["stderr"]) for w in c14.KW) or r["code"] != 0, "stderr": r["stderr"][-150:], "code": r["code"]}
+            tfrec.append((RecJob("Tf", ev), [ev]))
+    divs0 += chk.validate_recorded("Trace_Calls", tfrec, "c18tf")
     lines = num_lines(chk) + enc_lines(chk)
     chunk = 4000
     jobs = [CallJob("calls%d" % i, lines[i:i + chunk]) for i in range(0, len(lines), chunk)]
